@@ -176,6 +176,11 @@ def run(chk):
         chk.decide(got_calls == want_calls and len(pdf.calls) == len(want_calls), "pdf-sampled-on-the-operator-grid", f"{AP}.apply_pdf_flavor",
                    f"{inst}: the PDF is sampled {len(pdf.calls)} times; required once per present flavour and grid point at mu0^2",
                    where=src.func(f"{AP}.apply_pdf_flavor").where, instance=inst)
+    # the matrix the target grid goes through (stood in for above by a symbolic matrix): internal points given in another order are a
+    # different target grid - the results must come back in the order asked for
+    from .c34 import permuted_target_rule
+
+    permuted_target_rule(chk, src, "target-grid-is-reinterpolation")
     chk.floor("tensor identities", n_id, 20)
     chk.note(identities=n_id, files=["src/ekobox/apply.py"])
     chk.explanation = "Whole apply chain decided for all operator and PDF values, for the 8 option combinations."
